@@ -23,7 +23,7 @@ func init() {
 			"dominated by a lower bound >= 0 (or is unsigned / provably non-negative) and an upper bound that is a constant, a parameter, the type's width, or the min(n, cap) idiom.",
 		Explanation: "Decides: truncated input cannot yield a value (structurally: counts are honoured), reader/writer agreement on widths and field order for all primitive pairs, " +
 			"width consistency of masks, and that length prefixes are validated before allocation. Does not decide: value-level inverse for all values (UTF-8 subtleties, float NaNs).",
-		Fixtures: []string{"wire", "bounds", "knownbits"},
+		Fixtures: []string{"wire", "bounds", "knownbits", "errdisc"},
 		Variants: []Variant{
 			{Name: "short-read-uint32", File: pkgUtil + "/reader.go",
 				Old: "\t_, err = io.ReadFull(reader, protocol[:4])", New: "\t_, err = reader.Read(protocol[:4])", Expect: "short-read"},
